@@ -7,6 +7,9 @@
 #include <phosg/Network.hh>
 #include <phosg/Strings.hh>
 
+#include <atomic>
+#include <thread>
+
 #include "verif.hh"
 
 using namespace verif;
@@ -423,6 +426,132 @@ static void run_netloc(const Case& c) {
   if (port != 0) ctx().nontrivial_case();
 }
 
+// ---------------------------------------------------------------- concurrent callers
+//
+// Every function of this property is a pure function of its arguments: calls running at the same time on different
+// inputs must each return the result for their own input (a shared scratch buffer or lazily built table would make
+// callers corrupt each other while every single-threaded call stays right). Each thread owns one input; the expected
+// results are fixed before the threads start - from the references of this file for base64 / rot13 / netloc, and for
+// the escapers (whose exact spelling the property leaves open) from a single-threaded call that has first been put
+// through the complete single-threaded oracle (permitted characters + independent unescaper) above.
+// n = [threads, len, seed, reps, pattern]
+static std::string concurrent_input(uint64_t pattern, uint64_t seed, uint64_t t, uint64_t len) {
+  std::string d = vg::expand(seed + t * 7919, len);
+  switch (pattern) {
+    case 0: break; // uniform bytes
+    case 1: { // the special-character alphabet of gen_data
+      static const char raw[] = "\x00\xff\x7f\x80 aZ~/+-_=&%\"'\\\n\t\x1f\x7e";
+      static const std::string alpha(raw, sizeof(raw) - 1);
+      for (auto& ch : d) ch = alpha[static_cast<unsigned char>(ch) % alpha.size()];
+      break;
+    }
+    default: { // a few byte values of the thread's own (so that a result belonging to another thread cannot pass for this one's)
+      unsigned base = static_cast<unsigned>((seed >> 8) + 41 * t);
+      for (size_t i = 0; i < d.size(); i++) d[i] = static_cast<char>((base + (static_cast<unsigned char>(d[i]) % 3) * 64) & 0xFF);
+      break;
+    }
+  }
+  return d;
+}
+static void run_concurrent(const Case& c) {
+  uint64_t threads = c.u(0), len = c.u(1), seed = c.u(2), reps = c.u(3), pattern = c.u(4);
+  if (threads < 2 || threads > 8 || len > (1 << 14) || reps > 2000 || pattern > 2) throw std::logic_error("C11: concurrent case outside the domain");
+  struct Job {
+    std::string data, host;
+    int port = 0, dflt = 0;
+    std::string b64[2], bad64[2], rot, url[2], ctl[2], quo, netloc;
+    std::string failure, detail;
+  };
+  std::vector<Job> jobs(threads);
+  for (uint64_t t = 0; t < threads; t++) {
+    Job& j = jobs[t];
+    j.data = concurrent_input(pattern, seed, t, len + t);
+    // the single-threaded oracle on this input first (throws its own clause when the sequential result is already wrong)
+    run_esc_url(Case("esc_url").N(0).S(j.data));
+    run_esc_url(Case("esc_url").N(1).S(j.data));
+    run_esc_controls(Case("esc_controls").N(0).S(j.data));
+    run_esc_controls(Case("esc_controls").N(1).S(j.data));
+    run_esc_quotes(Case("esc_quotes").S(j.data));
+    for (int k = 0; k < 2; k++) {
+      j.b64[k] = ref_b64_encode(j.data, k == 1);
+      j.bad64[k] = j.b64[k];
+      if (!j.bad64[k].empty()) j.bad64[k][(seed + t) % j.bad64[k].size()] = '*';
+      else j.bad64[k] = "*";
+      j.url[k] = phosg::escape_url(j.data, k == 1);
+      j.ctl[k] = phosg::escape_controls(j.data, k == 1);
+    }
+    j.rot = j.data;
+    for (auto& ch : j.rot) ch = static_cast<char>(ref_rot13(static_cast<unsigned char>(ch)));
+    j.quo = phosg::escape_quotes(j.data);
+    j.host = j.data.substr(0, 40);
+    for (auto& ch : j.host)
+      if (ch == ':') ch = ';';
+    if (j.host.empty()) j.host = cat("h", t);
+    j.port = static_cast<int>(1 + mix(seed, t) % 65535);
+    j.dflt = static_cast<int>(mix(seed, t + 100) % 65536);
+    j.netloc = j.host + ":" + ref_decimal(static_cast<uint64_t>(j.port));
+  }
+  std::atomic<int> ready(0);
+  std::vector<std::thread> ts;
+  for (uint64_t t = 0; t < threads; t++) {
+    ts.emplace_back([&, t] {
+      Job& j = jobs[t];
+      ready.fetch_add(1);
+      while (ready.load() < static_cast<int>(threads)) std::this_thread::yield();
+      auto differs = [&](const char* what, const std::string& got, const std::string& want) {
+        if (got == want) return false;
+        j.failure = what;
+        j.detail = cat("returned ", hex(got, 200), " (", got.size(), " bytes); the result for this thread's own input is ", hex(want, 200), " (", want.size(), " bytes)");
+        return true;
+      };
+      try {
+        for (uint64_t r = 0; r < reps && j.failure.empty(); r++) {
+          bool bad = false;
+          for (int k = 0; k < 2 && !bad; k++) {
+            const char* alpha = k ? phosg::URLSAFE_ALPHABET : nullptr;
+            bad = differs(k ? "base64_encode:urlsafe" : "base64_encode:default", phosg::base64_encode(j.data, alpha), j.b64[k]) ||
+                differs(k ? "base64_decode:urlsafe" : "base64_decode:default", phosg::base64_decode(j.b64[k], alpha), j.data);
+            if (bad) break;
+            try {
+              std::string got = phosg::base64_decode(j.bad64[k], alpha);
+              j.failure = "base64_decode:accepts-invalid";
+              j.detail = cat("base64_decode(", hex(j.bad64[k], 200), ") returned instead of throwing invalid_argument");
+              bad = true;
+            } catch (const std::invalid_argument&) {
+            }
+          }
+          if (bad) break;
+          if (differs("rot13", phosg::rot13(j.data.data(), j.data.size()), j.rot)) break;
+          if (differs("escape_url", phosg::escape_url(j.data, false), j.url[0])) break;
+          if (differs("escape_url", phosg::escape_url(j.data, true), j.url[1])) break;
+          if (differs("escape_controls", phosg::escape_controls(j.data, false), j.ctl[0])) break;
+          if (differs("escape_controls", phosg::escape_controls(j.data, true), j.ctl[1])) break;
+          if (differs("escape_quotes", phosg::escape_quotes(j.data), j.quo)) break;
+          if (differs("render_netloc", phosg::render_netloc(j.host, j.port), j.netloc)) break;
+          auto back = phosg::parse_netloc(j.netloc, j.dflt);
+          if (back.first != j.host || back.second != j.port) {
+            j.failure = "parse_netloc";
+            j.detail = cat("parse_netloc(", hex(j.netloc), ") = (", hex(back.first), ", ", back.second, ")");
+            break;
+          }
+        }
+      } catch (const std::exception& e) {
+        j.failure = "unexpected-exception";
+        j.detail = cat(typeid(e).name(), ": ", e.what());
+      }
+    });
+  }
+  for (auto& t : ts) t.join();
+  for (uint64_t t = 0; t < threads; t++)
+    VCHECK(jobs[t].failure.empty(), cat("concurrent:", jobs[t].failure), jobs[t].failure, " on a ", jobs[t].data.size(), "-byte input while ", threads - 1, " other threads were calling the same functions on other inputs ", jobs[t].detail);
+  ctx().nontrivial_case();
+  ctx().cls(cat("concurrent-callers:pattern=", pattern));
+}
+static Case gen_concurrent() {
+  uint64_t len = vg::chance(3, 4) ? vg::below(64) : vg::scaled(1024);
+  return Case("concurrent").N(2 + vg::below(5)).N(len).N(vg::u64()).N(len > 256 ? 10 : 100).N(vg::below(3));
+}
+
 // ---------------------------------------------------------------- generators
 
 // Short strings are drawn byte by byte (shrinkable); long ones are expanded from one drawn seed (a draw per byte costs
@@ -671,5 +800,6 @@ int main(int argc, char** argv) {
   checks.push_back({"esc_controls", run_esc_controls, gen_esc_controls, 40000, 400000, 100, enum_esc_controls});
   checks.push_back({"esc_quotes", run_esc_quotes, gen_esc_quotes, 40000, 400000, 100, enum_esc_quotes});
   checks.push_back({"netloc", run_netloc, gen_netloc, 60000, 600000, 100, enum_netloc});
+  checks.push_back({"concurrent", run_concurrent, gen_concurrent, 400, 4000, 100, nullptr});
   return main_(argc, argv, checks);
 }
